@@ -5,7 +5,7 @@
 EXTENDS Sanitize
 
 CONSTANT MaxLen
-Alphabet == {"D", "N", "S", "W", "B", "P", "C", "L", "U"}
+Alphabet == {"D", "N", "S", "W", "B", "P", "C", "L", "U", "G"}
 VARIABLE s
 Init == s = <<>>
 Next == Len(s) < MaxLen /\ \E c \in Alphabet : s' = Append(s, c)
@@ -23,11 +23,16 @@ Clean(x) == x # <<>> /\ San(x) = x /\ ~(\E i \in 1..Len(x) : x[i] \in {"W", "B"}
 WsInvariant == Clean(s) => \A r \in Rewrites(s) : San(r) = s
 ComposedInvariant == Clean(s) => \A r \in Rewrites2(s) : San(r) = s
 \* ... and for strings that are not fixed points (they end in colons, carry whitespace of their own): padding never matters
-PadInvariant == (\E i \in 1..Len(s) : ~IsWs(s[i])) => \A r \in {<<"S">> \o s, s \o <<"S">>, s \o <<"W">>, s \o <<"B">>, <<"S">> \o s \o <<"S">>, <<"B">> \o s} : San(r) = San(s)
+\* (a string that BEGINS with the year mark is left out: the Russian rule needs a character in front of the mark, so the
+\* lone mark 'g.' keeps its letter and ' g.' loses it - a degenerate string that is no date in either spelling; DESIGN 0.3)
+PadInvariant == (\E i \in 1..Len(s) : ~IsWs(s[i])) /\ s[1] # "G" => \A r \in {<<"S">> \o s, s \o <<"S">>, s \o <<"W">>, s \o <<"B">>, <<"S">> \o s \o <<"S">>, <<"B">> \o s} : San(r) = San(s)
 \* the dotted date of the Croatian rule, written with single blanks, then with every member of the family in their place:
 \* what the sanitiser makes of it must not depend on the blanks (the rule runs before they are normalised)
 CroatBases == { <<"D", "P", "S", "D", "P", "S", "D", "P">>, <<"D", "P", "D", "P", "D", "P", "S", "U", "S", "D", "C", "D">>,
                 <<"D", "P", "S", "D", "P", "S", "D", "P", "S", "U", "S", "D">>, <<"D", "D", "P", "D", "P", "D", "D", "P", "S", "U">> }
 CroatInvariant == s = <<>> => \A x \in CroatBases : \A r \in Rewrites(x) \cup Rewrites2(x) : San(r) = San(x)
+\* the Russian year mark: a date with it sanitises to the date without it, under every rewriting
+YearMarkInvariant == s = <<>> => \A x \in { <<"D", "S", "L", "S", "D">>, <<"D", "P", "D", "P", "D">>, <<"D", "S", "L", "S", "D", "C", "D">> } :
+                       \A r \in Rewrites(x \o <<"S", "G", "P">>) \cup Rewrites2(x \o <<"S", "G", "P">>) \cup {x \o <<"G", "P">>, x \o <<"S", "G", "P">>} : San(r) = San(x)
 DigitScriptInvariant == Num(San(s)) = San(Num(s))
 =============================================================================
